@@ -27,7 +27,8 @@ def shim_programs():
     out = []
     out.append(('shim:twice', head + setw(97, 0) + [A.imm('LDAC', 1), A.opr('SVC'), A.opr('SVC')] + setw(98, 0) + [A.imm('LDAC', 1), A.opr('SVC')] + exitv(3)))
     out.append(('shim:thrice', head + setw(65, 0) + [A.imm('LDAC', 1), A.opr('SVC'), A.opr('SVC'), A.opr('SVC')] + exitv(0)))
-    out.append(('shim:svcfirst', [A.opr('SVC'), A.data(150000), A.data(0)]))     # OPR SVC at address 0 with areg = 0: exit, value = mem[sp+2] = 0 (image word? no: sp+2 is outside)
+    # OPR SVC is the first instruction (areg = 0 after reset: exit); sp = 1, so the exit value is image word 3 = 42
+    out.append(('shim:svcfirst', [A.opr('SVC'), A.data(1), A.data(0), A.data(42)]))
     out.append(('shim:svcattarget', head + setw(66, 0) + [A.imm('LDAC', 1), A.ref('BR', 't'), A.imm('LDAC', 9), A.lab('t'), A.opr('SVC')] + exitv(1)))
     # echo: read a byte, write it back, until 255 (end of input)
     loop = head + [A.lab('top'), A.imm('LDAC', 0), A.ref('LDBM', 'sp'), A.imm('STAI', 2), A.imm('LDAC', 2), A.opr('SVC'),
